@@ -55,10 +55,13 @@ fn combos(tier: Tier) -> Vec<(Cfg, BrancherSpec)> {
         v.push((cfgs[0], brs[0].clone()));
         v.push((cfgs[1], brs[2].clone()));
         v.push((cfgs[3], brs[1].clone()));
+        // (restarts only happen with a brancher that does not declare them pointless)
+        v.push((cfgs[1], brs[0].clone()));
     } else {
         for (i, c) in cfgs.iter().enumerate() {
             v.push((*c, brs[i % brs.len()].clone()));
             v.push((*c, brs[(i + 2) % brs.len()].clone()));
+            v.push((*c, brs[0].clone()));
         }
     }
     v
